@@ -29,11 +29,24 @@ class Worker:
         self.p = subprocess.Popen([sys.executable, "-m", "harness.c11_worker"], cwd=VERIF, env=env, stdin=subprocess.PIPE,
                                   stdout=subprocess.PIPE, text=True)
 
-    def call(self, op: dict[str, Any]) -> dict[str, Any]:
+    def call(self, op: dict[str, Any], timeout: float = 180.0) -> dict[str, Any]:
+        """one operation; an operation that does not come back within `timeout` seconds is reported as such (the process is
+        replaced), so that a library change that loops forever ends the check instead of hanging it"""
+        import select
+
         assert self.p.stdin and self.p.stdout
         self.p.stdin.write(json.dumps(op) + "\n")
         self.p.stdin.flush()
-        return json.loads(self.p.stdout.readline())
+        ready, _, _ = select.select([self.p.stdout], [], [], timeout)
+        if not ready:
+            self.p.kill()
+            self.__init__()
+            return {"error": "does-not-terminate", "op": op.get("op")}
+        line = self.p.stdout.readline()
+        if not line:
+            self.__init__()
+            return {"error": "worker-died", "op": op.get("op")}
+        return json.loads(line)
 
     def close(self) -> None:
         try:
@@ -92,10 +105,20 @@ def gen_op(ck: Check, pool: dict[str, Any]) -> dict[str, Any]:
     if r < 0.45:
         ck.histogram["op/mkStd"] += 1
         return {"op": "mkStd"}
-    if r < 0.52:
+    if r < 0.49:
         ck.histogram["op/mkExt"] += 1
         text, _ = fragment(rng)
         return {"op": "mkExt", "text": pool["simple"]}
+    if 0.49 <= r < 0.52:
+        ck.histogram["op/bigread"] += 1
+        root, text = rng.choice(pool["odo"])
+        before = b""
+        k = 0
+        while len(before) < 40000 and k < 6000:
+            before += build_record(root, gen_env(rng, root, rng.choice(["min", "max", "rand"])), salt=k % 40)
+            k += 1
+        probe = build_record(root, gen_env(rng, root, "rand"), salt=3)
+        return {"op": "bigread", "text": text, "before": before.hex(), "probe": probe.hex(), "fields": [c.name for c in root.children if c.name in counters_of(root)], "_n_before": k, "max_rows": k + 50}
     if 0.52 <= r < 0.60:
         ck.histogram["op/handread"] += 1
         k = rng.randint(1, 3)
@@ -191,6 +214,12 @@ def explore(ck: Check, n_hist: int, max_len: int) -> None:
                         f"probe {probe['op']} after {len(ops)} earlier operations differs from the same probe in a fresh process "
                         f"(key {diff!r}: {str(got.get(diff))[:120]} vs {str(ref.get(diff))[:120]})", inp)
             for o, res in zip(ops + [probe], outs + [got]):
+                if o["op"] == "bigread":
+                    ck.oracle_evaluations += 1
+                    if res.get("after") != res.get("alone") or res.get("after_rows") != o["_n_before"] + 1:
+                        ck.fail("history-dependent:bigread", f"a record read after {o['_n_before']} others ({len(o['before']) // 2} bytes) yields "
+                                f"{str(res.get('after'))[:80]} ({res.get('after_rows')} rows); read alone it yields {str(res.get('alone'))[:80]}",
+                                {"op": {k: (v if k not in ("before",) else v[:80] + "…") for k, v in public(o).items()}})
                 if o["op"] == "hdrdet":
                     ck.oracle_evaluations += 1
                     if res.get("header") != o["_want"]["header"] or res.get("details") != o["_want"]["details"]:
